@@ -18,6 +18,7 @@
 (*   rel:<k>   relation k between two recorded variants violated           *)
 (*   guard:<k> hook events of a softfork guard violate C31 clause k        *)
 (*   cap       a sampled counter exceeds its cap (C13)                     *)
+(*   stacks    stack high-water marks of the counters feature # machine    *)
 (*   internal  the run reported InternalError or panicked (C25)            *)
 (***************************************************************************)
 EXTENDS Interp, TLC, Json, IOUtils
@@ -72,15 +73,24 @@ RelHolds(k, a, b) ==
     [] OTHER -> FALSE
 
 ---------------------------------------------------------------------------
+(* high-water marks of the machine's three stacks (history field `mx` added to the machine state here): the code's *)
+(* `counters` feature reports the same marks of its val / env / op stacks, so the STEP STRUCTURE of the machine is  *)
+(* bound to the code, not only its outcome.  Every machine step pops first and pushes afterwards, so the stack     *)
+(* lengths after a step are the largest reached inside it.                                                          *)
+Max2i(a, b) == IF a >= b THEN a ELSE b
+WithMarks(s, mx) ==
+  [mx |-> [val |-> Max2i(mx.val, Len(s.val)), env |-> Max2i(mx.env, Len(s.env)), op |-> Max2i(mx.op, Len(s.ops))]] @@ s
+
 Init == l = 1 /\ st = Idle /\ grp = << >> /\ gst = << >>
         /\ cnt = [runs |-> 0, abstained |-> 0, steps |-> 0, fuel |-> 0]
 
 Begin(e) ==
   /\ st = Idle
   /\ e.ev = "begin"
-  /\ st' = Start(TreeOf(e.prog), TreeOf(e.env), e.budget, SetOf(e.flags), e.dialect,
-                 [atoms |-> e.al.atoms, pairs |-> e.al.pairs, heap |-> e.al.heap, limit |-> e.al.limit],
-                 IF Has(e, "wit") THEN e.wit ELSE << >>)
+  /\ st' = WithMarks(Start(TreeOf(e.prog), TreeOf(e.env), e.budget, SetOf(e.flags), e.dialect,
+                           [atoms |-> e.al.atoms, pairs |-> e.al.pairs, heap |-> e.al.heap, limit |-> e.al.limit],
+                           IF Has(e, "wit") THEN e.wit ELSE << >>),
+                     [val |-> 0, env |-> 0, op |-> 0])
   /\ grp' = IF grp # << >> /\ grp[1].case = e.case THEN grp ELSE << >>
   /\ gst' = << >>
   /\ l' = l + 1
@@ -89,7 +99,7 @@ Begin(e) ==
 Run ==
   /\ st # Idle
   /\ st.status = "run"
-  /\ st' = IF st.steps >= Fuel THEN AbstainS(st, "fuel") ELSE Step(st)
+  /\ st' = IF st.steps >= Fuel THEN AbstainS(st, "fuel") ELSE WithMarks(Step(st), st.mx)
   /\ UNCHANGED << l, grp, gst, cnt >>
 
 \* hook events between begin and end are consumed once the machine has finished
@@ -122,6 +132,15 @@ Sample(e) ==
      ELSE IF e.atoms <= MaxAtoms /\ e.pairs <= MaxPairs /\ e.f5 > 0 /\ e.heap - e.f5 <= e.limit
           THEN Report("cap:F5", [case |-> e.case, variant |-> e.variant], e)
      ELSE Report("cap", [case |-> e.case, variant |-> e.variant], e)
+  /\ l' = l + 1
+  /\ UNCHANGED << st, grp, gst, cnt >>
+
+\* run_program_with_counters (diag build): the stack high-water marks; decided only when the machine decided the run
+Stacks(e) ==
+  /\ st # Idle /\ st.status # "run" /\ e.ev = "stacks"
+  /\ IF st.status \in {"ok", "err"} /\ ~(e.val = st.mx.val /\ e.env = st.mx.env /\ e.op = st.mx.op)
+       THEN Report("stacks", [case |-> e.case, variant |-> e.variant], [expected |-> st.mx, observed |-> e, status |-> st.status])
+       ELSE TRUE
   /\ l' = l + 1
   /\ UNCHANGED << st, grp, gst, cnt >>
 
@@ -162,6 +181,7 @@ Next ==
      \/ GuardEnter(Rec[l])
      \/ GuardExit(Rec[l])
      \/ Sample(Rec[l])
+     \/ Stacks(Rec[l])
      \/ End(Rec[l])
 
 Done == (l = Len(Rec) + 1 /\ st = Idle) => PrintT(<< "TRACE-DONE", ToJson([lines |-> l - 1, cnt |-> cnt]) >>)
